@@ -36,7 +36,7 @@ type Prepared struct {
 	NotAnalysable map[string]string
 	Rule          string
 	Explanation   string
-	Normalize     func(j *Job, v *interp.Violation) Sig
+	Normalize     func(j *Job, pkg string, v *interp.Violation) Sig
 	ExpectReach   map[string][]string // job name -> reach ids that must be witnessed
 	Cleanup       func()
 }
@@ -78,20 +78,24 @@ func loadFindings(path string) ([]Finding, error) {
 	return fs, nil
 }
 
+// wild matches s against a glob pattern in which '*' stands for any text.
 func wild(pat, s string) bool {
-	if pat == "*" {
-		return true
+	if !strings.Contains(pat, "*") {
+		return pat == s
 	}
-	if strings.HasSuffix(pat, "*") && !strings.HasPrefix(pat, "*") {
-		return strings.HasPrefix(s, pat[:len(pat)-1])
+	parts := strings.Split(pat, "*")
+	if !strings.HasPrefix(s, parts[0]) {
+		return false
 	}
-	if strings.HasPrefix(pat, "*") && strings.HasSuffix(pat, "*") && len(pat) > 2 {
-		return strings.Contains(s, pat[1:len(pat)-1])
+	s = s[len(parts[0]):]
+	for i := 1; i < len(parts)-1; i++ {
+		k := strings.Index(s, parts[i])
+		if k < 0 {
+			return false
+		}
+		s = s[k+len(parts[i]):]
 	}
-	if strings.HasPrefix(pat, "*") {
-		return strings.HasSuffix(s, pat[1:])
-	}
-	return pat == s
+	return strings.HasSuffix(s, parts[len(parts)-1])
 }
 
 func (f *Finding) matches(prop string, s Sig) bool {
@@ -108,7 +112,7 @@ func (f *Finding) matches(prop string, s Sig) bool {
 	return true
 }
 
-func defaultNormalize(j *Job, v *interp.Violation) Sig {
+func defaultNormalize(j *Job, pkg string, v *interp.Violation) Sig {
 	return Sig{Kind: v.Kind, ID: v.ID, Func: v.Func, Stmt: v.Stmt}
 }
 
@@ -159,7 +163,7 @@ func RunCheck(ctx *Ctx, prepare func(*Ctx) (*Prepared, error), level string) int
 
 	// ---- aggregate ----
 	var (
-		paths, obligations, byRw, bySolver, incon, forks, rwChecks int
+		paths, obligations, byRw, bySolver, incon, forks, rwChecks, boundCuts int
 		instrs                                                    int64
 		pathsByEnd                                                = map[string]int{}
 		inconReasons                                              = map[string]int{}
@@ -230,6 +234,7 @@ func RunCheck(ctx *Ctx, prepare func(*Ctx) (*Prepared, error), level string) int
 			incon += fr.Inconclusive
 			forks += fr.Forks
 			rwChecks += fr.RewriteChk
+			boundCuts += fr.BoundCuts
 			for k, v := range fr.PathsByEnd {
 				pathsByEnd[k] += v
 			}
@@ -242,7 +247,7 @@ func RunCheck(ctx *Ctx, prepare func(*Ctx) (*Prepared, error), level string) int
 			h := fr.Func[strings.LastIndex(fr.Func, ".")+1:]
 			pk := fr.Func[:strings.LastIndex(fr.Func, ".")]
 			for _, v := range fr.Violations {
-				s := prep.Normalize(j, v)
+				s := prep.Normalize(j, pk, v)
 				s.Harness = h
 				vios = append(vios, &vioRec{job: j, pkg: pk, harness: h, v: v, sig: s})
 			}
@@ -332,12 +337,18 @@ func RunCheck(ctx *Ctx, prepare func(*Ctx) (*Prepared, error), level string) int
 				return
 			}
 			var cases []ReplayCase
-			for _, v := range byJob[jn] {
+			var owner []int // case index -> violation index
+			for vi, v := range byJob[jn] {
 				runs := 1
 				if v.v.Kind == "assert" {
 					runs = 24
 				}
 				cases = append(cases, ReplayCase{Func: v.harness, Script: v.v.Script, Runs: runs, Kind: v.v.Kind, ID: v.v.ID})
+				owner = append(owner, vi)
+				for _, alt := range v.v.Alt {
+					cases = append(cases, ReplayCase{Func: v.harness, Script: alt, Runs: runs, Kind: v.v.Kind, ID: v.v.ID})
+					owner = append(owner, vi)
+				}
 			}
 			nv := len(cases)
 			cases = append(cases, witnesses[jn]...)
@@ -368,9 +379,15 @@ func RunCheck(ctx *Ctx, prepare func(*Ctx) (*Prepared, error), level string) int
 				}
 				return
 			}
-			for i, v := range byJob[jn] {
+			for i := 0; i < nv; i++ {
+				v := byJob[jn][owner[i]]
 				o := outs[i]
-				v.outcome = &o
+				if v.outcome == nil || (!v.outcome.Reproduced && o.Reproduced) {
+					v.outcome = &o
+					if o.Reproduced {
+						v.v.Script = cases[i].Script
+					}
+				}
 			}
 			for i := nv; i < len(cases); i++ {
 				if outs[i].Reproduced {
@@ -525,6 +542,7 @@ func RunCheck(ctx *Ctx, prepare func(*Ctx) (*Prepared, error), level string) int
 		"inconclusive_reasons":          inconReasons,
 		"paths_by_end":                  pathsByEnd,
 		"forks":                         forks,
+		"paths_cut_at_enumeration_bound": boundCuts,
 		"harnesses_run":                 harnessesRun,
 		"jobs":                          len(jobs),
 		"programs":                      prep.Programs,
